@@ -28,11 +28,11 @@ ALPHABETS = [
     (0.25, 1.1, 2.6, 5.2, 6.25),
 ]
 STEPS = (np.pi, 1.5 * np.pi, 1.8 * np.pi)
-LAYOUTS = ('vector', 'column', 'two')
+LAYOUTS = ('vector', 'column', 'two', 'nowrap-first')
 
 
 def bounds(tier):
-    return {'max_len': 6 if tier == 'quick' else 8, 'alphabet': 5, 'steps': 3, 'layouts': 3}
+    return {'max_len': 6 if tier == 'quick' else 8, 'alphabet': 5, 'steps': 3, 'layouts': 4}
 
 
 def alphabet(seed):
@@ -134,6 +134,10 @@ def build_phase(case):
         return col.copy(), [col]
     if lay == 'column':
         return col[:, None].copy(), [col]
+    if lay == 'nowrap-first':
+        # a wrap-free column (a trend: less than one cycle) placed BEFORE the column under test
+        flat = np.linspace(0.2, 1.1, len(col)) if col.dtype.kind == 'f' else np.zeros(len(col), dtype=col.dtype)
+        return np.c_[flat, col], [flat, col]
     col2 = col[::-1].copy()
     if kind == 'seq':
         col2 = np.array(alphabet(seed))[[(v + 2) % 5 for v in s]]
@@ -185,7 +189,7 @@ def check_good_structure(lab, segs):
 
 
 def check_case(case):
-    from emd.cycles import get_cycle_vector
+    from emd.cycles import get_cycle_vector, get_cycle_inds
     step = STEPS[case[2]]
     phase, cols = build_phase(case)
     viols = []
@@ -222,6 +226,17 @@ def check_case(case):
             continue
         trans += 1
         out = np.asarray(out)
+        if len(cols[0]) <= 8:
+            # the deprecated alias is the same function
+            try:
+                import warnings
+                with warnings.catch_warnings():
+                    warnings.simplefilter('ignore')
+                    alias = np.asarray(get_cycle_inds(phase.copy(), return_good=rg, phase_step=step))
+                if alias.shape != out.shape or not np.array_equal(alias, out):
+                    viols.append(('alias-differs', '%s return_good=%s: get_cycle_inds gives %s, get_cycle_vector %s' % (describe(case), rg, alias.tolist(), out.tolist())))
+            except Exception as e:
+                viols.append(('raise:%s:alias' % type(e).__name__, '%s: get_cycle_inds raised %r' % (describe(case), e)))
         if out.shape != (len(cols[0]), len(cols)) or out.dtype.kind not in 'iu':
             viols.append(('shape', '%s: output shape/dtype %r %r' % (describe(case), out.shape, out.dtype)))
             continue
